@@ -16,8 +16,8 @@ EXPLANATION = (
     "afmformats data classes run on raw columns of N=4 solver variables; the six "
     "steps are abstract but deterministic (own column + uninterpreted marker per "
     "(step, options); invalid option values raise like the real steps). For every "
-    "history of k requests over {4 valid pipelines via apply_preprocessing, 2 via "
-    "fit_model, 3 rejected requests via either API} z3 shows: the columns after the "
+    "history of k requests over {5 valid pipelines via apply_preprocessing (incl. the same steps with "
+    "explicitly empty options), 3 via fit_model, 3 rejected requests via either API} z3 shows: the columns after the "
     "history equal those of a fresh curve given only the last request; re-applying "
     "changes nothing and runs no step; raw data objects are untouched; a request "
     "rejected on the fresh curve is rejected in the history, is rejected again when "
@@ -30,7 +30,7 @@ ASSUMPTIONS = [
 BUDGET_S = {"quick": 900, "thorough": 3300}
 QUERY_TIMEOUT_MS = {"quick": 30000, "thorough": 60000}
 
-OPS = [(n, "apply") for n in hc.VALID] + [("A", "fit"), ("B", "fit")] \
+OPS = [(n, "apply") for n in hc.VALID] + [("A", "fit"), ("B", "fit"), ("B0", "fit")] \
     + [(n, "apply") for n in hc.INVALID] + [(n, "fit") for n in hc.INVALID]
 
 
